@@ -15,16 +15,23 @@ for d in sorted(glob.glob(os.path.join(ROOT, "seeded", "*"))):
     err = sorted(p for p, v in res.items() if v["exit"] not in (0, 1))
     own = m.get("property", name[:3])
     sig = (res.get(own, {}).get("signatures") or [""])[0]
-    rows.append((name, own, m.get("verified", {}).get("ok"), own in caught, caught, err, m.get("summary", "")[:160].replace("|", "/").replace("\n", " "), m.get("needs", "")[:140].replace("|", "/").replace("\n", " "), sig))
+    bs = m.get("by_seed", {})
+    if own in bs.get("1", {}):  # the most recent run of the own check at VERIF_SEED=1
+        if bs["1"][own] == 1 and own not in caught:
+            caught = sorted(caught + [own])
+        if bs["1"][own] == 0 and own in caught:
+            caught = [c for c in caught if c != own]
+    rel = "/".join({1: "y", 0: "n"}.get(bs.get(v, {}).get(own), "-") for v in ("1", "2", "3"))
+    rows.append((name, own, m.get("verified", {}).get("ok"), own in caught, caught, err, m.get("summary", "")[:160].replace("|", "/").replace("\n", " "), m.get("needs", "")[:140].replace("|", "/").replace("\n", " "), sig, rel))
 with open(os.path.join(ROOT, "SEEDED.md"), "w") as f:
     f.write("# Seeded changes and the checks that catch them\n\n")
     f.write("Each change was written by a fresh sub-agent that saw only the text of one property and a scratch worktree of /repo. "
             "`verified` = the agent's demonstration passes on the unchanged tree, fails with the patch, and the pinned 32 baseline tests still pass with the patch "
             "(re-checked by `seedcheck.py` in a scratch copy). `caught by` = registered quick checks (full quick budget, `--no-shrink`) that exit 1 with the patch applied "
             "(run through `VERIF_REPO` on a scratch copy; /repo itself is never modified).\n\n")
-    f.write("| seed | breaks | verified | own check catches | caught by | first signature of own check | what was changed | what it needs |\n|---|---|---|---|---|---|---|---|\n")
-    for (name, own, ok, owncatch, caught, err, summ, needs, sig) in rows:
-        f.write(f"| {name} | {own} | {'yes' if ok else 'NO'} | {'yes' if owncatch else '**no**'} | {' '.join(caught)}{(' (harness error: ' + ' '.join(err) + ')') if err else ''} | `{sig}` | {summ} | {needs} |\n")
+    f.write("| seed | breaks | verified | own check catches | own check at VERIF_SEED 1/2/3 | caught by | first signature of own check | what was changed | what it needs |\n|---|---|---|---|---|---|---|---|---|\n")
+    for (name, own, ok, owncatch, caught, err, summ, needs, sig, rel) in rows:
+        f.write(f"| {name} | {own} | {'yes' if ok else 'NO'} | {'yes' if owncatch else '**no**'} | {rel} | {' '.join(caught)}{(' (harness error: ' + ' '.join(err) + ')') if err else ''} | `{sig}` | {summ} | {needs} |\n")
     n = len(rows)
     f.write(f"\n{sum(1 for r in rows if r[3])}/{n} caught by the check of the property they were written against; {sum(1 for r in rows if r[4])}/{n} caught by at least one check.\n")
 print("rows", len(rows))
